@@ -1507,6 +1507,15 @@ class H2Connection:
             setting = changes[SettingCodes.HEADER_TABLE_SIZE]
             if setting.new_value != self.encoder.header_table_size:
                 self.encoder.header_table_size = setting.new_value
+                # Several changes before our next header block are signalled
+                # as RFC 7541 Section 4.2 says: the smallest size, then the
+                # final one. The encoder would list every value it was given,
+                # including ones above the limit the peer has now.
+                pending = self.encoder.table_size_changes
+                if len(pending) > 1:
+                    self.encoder.table_size_changes = sorted(
+                        {min(pending), pending[-1]}
+                    )
 
         if SettingCodes.MAX_FRAME_SIZE in changes:
             setting = changes[SettingCodes.MAX_FRAME_SIZE]
